@@ -148,6 +148,15 @@ def data_burst_case(acc, label, kind, dtname, clsname, vals, cc, syncname, check
             if kind.family == "rate_data":
                 obj = kind.parse(got_bits)  # typed view of the same info bits
             rd = kind.read(obj)
+            if kind.family == "rate_data" and kind.name.endswith("_unconfirmed"):
+                # a burst alone does not say whether its block is a confirmed one (the data header does): what the burst parser hands out
+                # for an unconfirmed block must itself say "unconfirmed, all octets are user data" -- also when the first two octets
+                # happen to look like a serial number followed by a valid CRC-9
+                own = kind.read(parsed.data)
+                if own.get("_packet_type") != "Unconfirmed" or own.get("data") != vals["data"]:
+                    acc.violation(f"unconfirmed_block_parsed_as_something_else:{kind.name}", {**case, "parsed_type": own.get("_packet_type"), "parsed_data": hex(own.get("data") or 0)},
+                                  "the object the burst parser returns for an unconfirmed data block has another packet type / other user data")
+                calls += 1
             lost = [f for f in vals if rd.get(f) != vals[f]]
             for f in lost:
                 acc.violation(f"field_differs_after_burst_round_trip:{kind.name}:{f}", {**case, "built": vals[f], "parsed": repr(rd.get(f))},
@@ -186,6 +195,23 @@ def field_cases(ti, thorough=False):
                 if key not in seen:
                     seen.add(key)
                     out.append(d)
+    if kind.family == "rate_data" and kind.name.endswith("_unconfirmed"):
+        # coincidences: user data of an unconfirmed block that is, octet for octet, a well-formed confirmed (last) block of the same rate
+        # (serial number + valid CRC-9 in front) -- e.g. a relayed block, or 1 in 512 of arbitrary payloads
+        rn = kind.name.split("_")[0]
+        for sib in (f"{rn}_confirmed", f"{rn}_confirmed_last"):
+            for _, k2, _, _ in TARGETS:
+                if k2.name != sib:
+                    continue
+                for b in bases(k2):
+                    for dbsn in (0, 1, 35, 127):
+                        v2 = dict(b)
+                        v2["dbsn"] = dbsn
+                        d = {"data": int(k2.build(v2).as_bits().to01(), 2)}
+                        key = tuple(d[x] for x in kind.fields)
+                        if key not in seen:
+                            seen.add(key)
+                            out.append(d)
     return out
 
 
